@@ -5,9 +5,10 @@
 (* harness snapshots the filesystem when the client's result frame         *)
 (* appears).  One JSON line per finished behaviour.                        *)
 (* GenInit only restricts which initial states are expanded:               *)
-(*   - the IPv6 connection is used for paths that contain an               *)
-(*     address-qualified leaf (for all other classes the family is         *)
-(*     irrelevant to Valid), plus the two-component paths;                 *)
+(*   - the IPv6 connection is used for paths of at most two components,    *)
+(*     3-component paths that contain an address-qualified leaf and longer *)
+(*     paths that end in one (for all other classes the family is          *)
+(*     irrelevant to Valid);                                               *)
 (*   - network faults are injected only where something was created        *)
 (*     (elsewhere they cannot change the projection).                      *)
 (***************************************************************************)
@@ -24,7 +25,9 @@ GenInit ==
   /\ Init
   /\ obsMade = [created |-> {}, result |-> "unset"]
   /\ role = "client" =>
-       /\ fam = 6 => (HasAddrLeaf(path) \/ Len(path) <= 2)
+       /\ fam = 6 => \/ Len(path) <= 2
+                      \/ Len(path) = 3 /\ HasAddrLeaf(path)
+                      \/ Len(path) >= 4 /\ path[Len(path)] \in AddrLeaves
        /\ fault # "none" => (Verdict(abs, path, huge, fam) # "reject")
 
 GenNext ==
